@@ -18,6 +18,7 @@ import common
 import coreops
 import fbagen
 import lpcert
+import auxcorr
 from c05 import gen_bounded_spec, split_region
 
 logging.disable(logging.CRITICAL)
@@ -342,6 +343,49 @@ def gen_case(rng):
     return case
 
 
+def aux_stage(ctx):
+    """The problems add_pfba / add_moma / add_room hand to GLPK vs the Lean builders; returns oracle cases on the models where they differ."""
+    def f_pfba(make, spec, rng):
+        m = make()
+        obj = None
+        if rng.random() < 0.3:
+            obj = {rng.choice(list(m.reactions)): 1.0}
+        return auxcorr.pairs_pfba(m, rng.choice([1.0, 1.0, 0.5, 0.9, 0.0]), objective=obj)
+
+    def f_fix(make, spec, rng):
+        return auxcorr.pairs_fix(make(), rng.choice([1.0, 0.5, 0.0]))
+
+    def f_moma(make, spec, rng):
+        ref = auxcorr.pfba_reference(make())
+        return auxcorr.pairs_moma(auxcorr.knocked(make(), rng), ref)
+
+    def f_room(linear):
+        def f(make, spec, rng):
+            ref = auxcorr.pfba_reference(make(), dyadic=True)
+            d, e = rng.choice([(0.125, 0.25), (0.0, 0.5), (0.25, 0.0), (0.03125, 0.001953125)])
+            return auxcorr.pairs_room(auxcorr.knocked(make(), rng), ref, linear, d, e)
+        return f
+    plan = [("add_pfba", f_pfba), ("fix_objective_as_constraint", f_fix), ("add_moma(linear)", f_moma), ("add_room", f_room(False)),
+            ("add_room(linear)", f_room(True))]
+    mism = auxcorr.stage(ctx, plan, gen_bounded_spec, ctx.scale(60, 800))
+    cases = []
+    for mm in mism[:6]:
+        spec, label = mm["spec"], mm["label"]
+        rids = [r["id"] for r in spec["rxns"]]
+        if "pfba" in label or "fix" in label:
+            cases += [{"spec": spec, "method": "pfba", "fraction": f} for f in ("1", "1/2", "0")]
+        else:
+            meth = "moma" if "moma" in label else ("room_linear" if "linear" in label else "room")
+            for ko in [None] + rids[:4]:
+                c = {"spec": dict(spec, dir="max"), "method": meth, "ko": ko, "give_reference": True, "ref_order": "model"}
+                if meth == "room":
+                    if len(rids) > 7:
+                        continue
+                    c.update(delta="3/100", epsilon="1/1000")
+                cases.append(c)
+    return cases
+
+
 def run(ctx):
     if getattr(ctx, "replay", None):
         data = json.loads(open(ctx.replay).read())
@@ -353,14 +397,15 @@ def run(ctx):
                 print(f"VIOLATION property=C09 replay={ctx.replay}")
                 return 1
         return 0
-    common.proof_stage(ctx, "CobraModel.Props.C09", extra_scan=["CobraModel/Lemmas/Formulations.lean", "CobraModel/Lemmas/LP.lean", "CobraModel/Model/LP.lean"])
+    common.proof_stage(ctx, "CobraModel.Props.C09", extra_scan=["CobraModel/Lemmas/Formulations.lean", "CobraModel/Lemmas/LP.lean", "CobraModel/Model/LP.lean"] + auxcorr.SCAN)
+    directed = aux_stage(ctx)
     rng = ctx.rng
     n = ctx.scale(300, 5000)
     ran, tries = 0, 0
     skipped, methods = {}, {}
     distinct = set()
     samples = []
-    corpus = common.load_corpus("C09")
+    corpus = directed + common.load_corpus("C09")
     while ran < n and tries < n * 5 and not ctx.violations:
         tries += 1
         case = corpus.pop(0) if corpus else gen_case(rng)
